@@ -744,7 +744,11 @@ def seq_real(ctx):
     # the repaired code: dense kernels of 20-49 lines, timeout 1 s
     big = {"fib40": fib40,
            "fib49": {"isa": "x86", "arch": "zen2", "text": lcd_par.gen_fib_x86(49)},
-           "deadend40": {"isa": "x86", "arch": "zen2", "text": c19_seq.gen_deadend_x86(40)}}
+           "deadend40": {"isa": "x86", "arch": "zen2", "text": c19_seq.gen_deadend_x86(40)},
+           # an instruction WITH a genuine loop-carried dependency (addq $1,%rcx) that also feeds an exponentially branching region which
+           # never returns to it: a search that first asks "is there a path at all?" and then walks everything in front of the target
+           "rootfed49": {"isa": "x86", "arch": "zen2", "text": "addq $1, %rcx\nmovq %rcx, %rax\n" + "movq %rax, %rbx\naddq %rbx, %rax\n" * 22
+                                                               + "cmpq %rdx, %rcx\njne .L1\n"}}
     n = rng.choice([30, 36, 44, 48])
     seed = rng.randrange(10 ** 9)
     big["chain%d-s%d" % (n, seed)] = {"isa": "x86", "arch": "zen2", "text": lcd_par.gen_chain_x86(_random.Random(seed), n, n - 4, pool=rng.choice([9, 14]))}
